@@ -343,7 +343,7 @@ class Pin:
 # --------------------------------------------------------------------------- packets
 class Pkt:
     __slots__ = ("src", "ch", "rate", "addr", "payload", "pid", "noack", "esb", "dpl", "crc",
-                 "is_ack", "start", "end", "collided", "lost", "heard_by", "acked", "seq")
+                 "is_ack", "start", "end", "collided", "lost", "heard_by", "acked", "seq", "want_ack")
 
     def __repr__(self):
         return "<Pkt %s ch%d %s %s len%d pid%d%s t=%d..%dus%s%s>" % (
@@ -420,6 +420,7 @@ class SimRadio:
         self.celog = None  # list of (now, value) when enabled
         self.xfers_in_cs = 0
         self.uid = 0
+        self.rx_overflow = 0  # packets dropped because the RX FIFO was full
 
     # ------------------------------------------------------------------ derived values
     def status(self):
@@ -716,6 +717,7 @@ class SimRadio:
         p.lost = False
         p.heard_by = []
         p.acked = False
+        p.want_ack = (not is_ack) and p.esb and bool(self.r[0x01] & 1) and not noack
         w.seq += 1
         p.seq = w.seq
         return p
@@ -869,6 +871,7 @@ class SimRadio:
         dup = pkt.esb and self.last_rx == (pkt.pid, pkt.payload, pkt.addr)
         if not dup:
             if len(self.rx_fifo) >= 3:
+                self.rx_overflow += 1
                 return  # RX FIFO full: packet discarded, not acknowledged
             self.rx_fifo.append((pipe, pkt.payload))
             self.r[0x07] |= 0x40
